@@ -25,7 +25,7 @@ def _nt(f):
 
 
 def _strategy(tier):
-    return market_cases(max_ops=60 if tier == "quick" else 300, market_frac=4, batch_bias=True, match_weight=4)
+    return market_cases(max_ops=60 if tier == "quick" else 300, market_frac=4, batch_bias=True, match_weight=4, jumps=True)
 
 
 def _deep_strategy(tier):
